@@ -66,7 +66,11 @@ func (w *sumW) putLoc(l protoreflect.SourceLocation) {
 	w.hex(l.TrailingComments)
 }
 
-// options of d, in a canonical order on the wire (the printer's own order is the model's business)
+// options of d, in a canonical order on the wire. The order OptionsFor returns is the iteration order of a Go
+// map; the printer sorts. Statement options (file, message, enum, oneof, service, method) are shipped in the
+// order the printer writes them (optionsByLocation.Less, when it determines one), bracket options (field,
+// enum value) by full name: a reader of the text finds them in that order, and the grammar theorem compares
+// the options of an element position by position (optsOk). The model sorts them itself either way.
 func (w *sumW) opts(d protoreflect.Descriptor) []*optionreflect.OptionDefinition {
 	var b *optionreflect.Builder
 	opts, err := b.OptionsFor(d)
@@ -84,6 +88,13 @@ func (w *sumW) opts(d protoreflect.Descriptor) []*optionreflect.OptionDefinition
 	}
 	type enc struct {
 		key, text string
+		o         *optionreflect.OptionDefinition
+	}
+	byLoc := false
+	switch d.(type) {
+	case protoreflect.FieldDescriptor, protoreflect.EnumValueDescriptor:
+	default:
+		byLoc = optsDeterminedGo(opts)
 	}
 	encs := make([]enc, 0, len(opts))
 	for _, o := range opts {
@@ -115,12 +126,16 @@ func (w *sumW) opts(d protoreflect.Descriptor) []*optionreflect.OptionDefinition
 			w.fail(fmt.Errorf("walk panic"))
 		}
 		treeWire(tree, &sb.sb)
-		encs = append(encs, enc{string(o.Desc.FullName()), sb.sb.String()})
+		encs = append(encs, enc{string(o.Desc.FullName()), sb.sb.String(), o})
 	}
-	// canonical order: by full name (unique per element)
+	// canonical order: by full name (unique per element), or the printer's order
 	for i := 0; i < len(encs); i++ {
 		for j := i + 1; j < len(encs); j++ {
-			if encs[j].key < encs[i].key {
+			before := encs[j].key < encs[i].key
+			if byLoc {
+				before = optLocLess(encs[j].o, encs[i].o)
+			}
+			if before {
 				encs[i], encs[j] = encs[j], encs[i]
 			}
 		}
@@ -200,24 +215,24 @@ func walkGuard(o *optionreflect.OptionDefinition) (t optionreflect.OptionField, 
 	return optionreflect.WalkOptionField(o.Desc, o.Value), true
 }
 
+func optLocLess(a, b *optionreflect.OptionDefinition) bool {
+	al, bl := int32(0), int32(0)
+	if a.SourceLocation != nil {
+		al = a.SourceLocation.StartLine
+	}
+	if b.SourceLocation != nil {
+		bl = b.SourceLocation.StartLine
+	}
+	return optionreflect.VerifLocLess(a.SourceLocation != nil, al, a.Desc.Index(), string(a.Desc.FullName()),
+		b.SourceLocation != nil, bl, b.Desc.Index(), string(b.Desc.FullName()))
+}
+
 func optsDeterminedGo(opts []*optionreflect.OptionDefinition) bool {
 	n := len(opts)
 	if n <= 1 {
 		return true
 	}
-	lt := func(i, j int) bool {
-		a, b := opts[i], opts[j]
-		al, bl := int32(0), int32(0)
-		if a.SourceLocation != nil {
-			al = a.SourceLocation.StartLine
-		}
-		if b.SourceLocation != nil {
-			bl = b.SourceLocation.StartLine
-		}
-		return optionreflect.VerifLocLess(a.SourceLocation != nil, al, a.Desc.Index(), string(a.Desc.FullName()),
-			b.SourceLocation != nil, bl, b.Desc.Index(), string(b.Desc.FullName()))
-	}
-	return strictWeakNoTies(n, lt)
+	return strictWeakNoTies(n, func(i, j int) bool { return optLocLess(opts[i], opts[j]) })
 }
 
 func strictWeakNoTies(n int, lt func(i, j int) bool) bool {
